@@ -688,6 +688,27 @@ func main() {
 		}
 	}
 
+	// restore boundaries: (second of the last stored sample - stored activation second) = hold-1s, hold, hold+1s
+	// (timeRemainingPending = +1s, 0, -1s) x grace <, =, > hold and 0 x the sample just inside /
+	// just outside the outage tolerance, with and without a millisecond fraction
+	{
+		hold := 10 * min
+		tol := 60 * min
+		t1 := t0 + 7*24*60*min
+		ts := t1 + min + 7*ms
+		mintMS := (ts - tol) / 1e6
+		for _, grace := range []int64{0, min, 10 * min, 11 * min} {
+			for _, dS := range []int64{hold/sec - 1, hold / sec, hold/sec + 1} {
+				for _, T := range []int64{ts/1e6 - 120000, ts/1e6 - 120000 + 999, mintMS, mintMS - 1} {
+					v := T/1000 - dS
+					st := []sseries{{Key: 0, Samples: []ssample{{T: T - 60000, V: v}, {T: T, V: v}}}}
+					runCase(hold, 0, false, []op{ev(t1, 0), ev(t1+min, 0), {Kind: "restore", TS: ts, Tol: tol, Grace: grace, Store: st},
+						ev(t1+2*min, 0), ev(t1+3*min, 0), ev(t1+12*min+8*ms, 0)}, "corpus", "restore-boundary")
+				}
+			}
+		}
+	}
+
 	// ----- seeded random timelines -----
 	n := f.Count(160, 5000)
 	for i := 0; i < n; i++ {
@@ -774,8 +795,35 @@ func main() {
 				}
 			}
 			g.now += gen.Pick(r, []int64{0, 3 * ms, 250 * ms, sec})
-			push(op{Kind: "restore", TS: g.now, Tol: gen.Pick(r, []int64{60 * min, 60 * min, 10 * min, 0, 3 * 60 * min}),
-				Grace: gen.Pick(r, []int64{10 * min, 10 * min, min, 0, 30 * sec, 15 * min}), Store: st})
+			tol := gen.Pick(r, []int64{60 * min, 60 * min, 10 * min, 0, 3 * 60 * min})
+			grace := gen.Pick(r, []int64{10 * min, 10 * min, min, 0, 30 * sec, 15 * min})
+			if r.Chance(1, 4) {
+				grace = g.hold // for = grace period
+			}
+			if g.hold >= sec && r.Chance(1, 2) {
+				// boundary store: last sample at the edges of the outage tolerance / just before the
+				// restore, written exactly hold-1s / hold / hold+1s (and around hold-grace) after activation
+				shape = "timeline-restart-boundary"
+				hs, gs := g.hold/sec, grace/sec
+				tsMS, mintMS := g.now/1e6, (g.now-tol)/1e6
+				have := map[int64]bool{}
+				for _, x := range st {
+					have[x.Key] = true
+				}
+				for k := int64(0); k < int64(g.nkeys) && k < 2; k++ {
+					if !have[k] {
+						st = append(st, sseries{Key: k})
+					}
+				}
+				sort.Slice(st, func(a, b int) bool { return st[a].Key < st[b].Key })
+				for si := range st {
+					T := gen.Pick(r, []int64{mintMS - 1, mintMS, mintMS + 1, tsMS - 120000, tsMS - 120000 + 999, tsMS - 1000, tsMS, tsMS + 1})
+					dS := gen.Pick(r, []int64{hs - 1, hs, hs, hs + 1, hs - gs - 1, hs - gs, hs - gs + 1})
+					v := T/1000 - dS
+					st[si].Samples = []ssample{{T: T - 60000, V: v}, {T: T, V: v}}
+				}
+			}
+			push(op{Kind: "restore", TS: g.now, Tol: tol, Grace: grace, Store: st})
 			g.sticky = false
 			g.small = r.Chance(1, 2)
 			more := 3 + r.Intn(8)
